@@ -2,7 +2,7 @@
 from units.base import *
 
 CACHE = "crates/dns-resolver/src/cache.rs"
-RLIMIT = 60   # the body of upsert needs about 25 (default 10); measured 8 s of SMT time
+RLIMIT = 20   # headroom; the unit needs < 2 s of SMT time
 TRUSTED = TRUSTED_COMMON + [
     "std::time model (prelude/time.rs): Instant as a point on Z, now() arbitrary, Duration exact, Instant + Duration without overflow",
     "priority_queue::PriorityQueue<K, Reverse<Instant>> as Map<K, Instant>, pop returns a minimal instant (prelude/pq.rs, R18 shims)",
